@@ -312,3 +312,17 @@ Proof.
   rewrite <- mult_IZR. apply IZR_lt.
   pose proof (Z.mul_succ_div_gt a (Z.pos d) ltac:(lia)). lia.
 Qed.
+
+(* a concrete instance of the cone hypotheses *)
+Lemma ex_cone_ok : exists (wtab : Z -> R) (r : R) (delem : Z),
+  0 <= delem /\ (r < IZR (delem + 1))%R /\ (0 < r)%R /\
+  (forall d2, 0 <= d2 -> wtab d2 = Rmax 0 (r - sqrt (IZR d2))) /\
+  (3 < win_lo 5 delem) /\ cone_H wtab 5 0 0 3 0 0 = 0%R.
+Proof.
+  exists (fun d2 => Rmax 0 (3 / 2 - sqrt (IZR d2))), (3 / 2)%R, 1.
+  assert (Hr : (3 / 2 < IZR (1 + 1))%R) by (cbn; lra).
+  split; [lia|]. split; [exact Hr|]. split; [lra|]. split; [reflexivity|]. split; [reflexivity|].
+  unfold cone_H.
+  apply (cone_zero_far (3 / 2)%R 1 ltac:(lia) Hr (fun d2 => Rmax 0 (3 / 2 - sqrt (IZR d2))) (fun d2 _ => eq_refl)).
+  unfold sq. lia.
+Qed.
